@@ -327,9 +327,24 @@ def check_width(prog: Program, res: Result) -> None:
                    "integer width and truncation makes the head convolution one channel too narrow", f"{fi.module.relpath}:{c.lineno}")
     res.ob(R, n_quot >= 1, fi.qualname, "head input width is derived from the backbone width", "no inverse width computation found in Model.__init__", fi.where)
     mk = [c for c in astq.method_calls(fi.node, "make_head")]
+    # the names that carry the derived width: bound from the quotient, or from a name that carries it
+    def _has_quot(e):
+        return any(isinstance(x, ast.BinOp) and isinstance(x.op, (ast.Div, ast.FloorDiv)) and any(isinstance(y, ast.BinOp) and isinstance(y.op, ast.Pow) for y in ast.walk(x.right))
+                   for x in ast.walk(e))
+    derived: Set[str] = set()
+    grew = True
+    while grew:
+        grew = False
+        for st_ in walk_function(fi.node):
+            if isinstance(st_, (ast.Assign, ast.AnnAssign, ast.AugAssign)) and getattr(st_, "value", None) is not None \
+                    and (_has_quot(st_.value) or astq.names_in(st_.value) & derived):
+                new_ = {t for tg in astq.stmt_targets(st_) if isinstance(tg, (ast.Name, ast.Tuple, ast.List)) for t in astq.target_names(tg)} - derived
+                if new_:
+                    derived |= new_
+                    grew = True
     for c in mk:
         v = astq.call_arg(c, 0, "x_in")
-        res.ob(R, v is not None and "in_channels" in astq.names_in(v), fi.qualname, "make_head receives the derived width",
+        res.ob(R, v is not None and (bool(astq.names_in(v) & derived) or _has_quot(v)), fi.qualname, "make_head receives the derived width",
                f"`{short(c, 50)}` does not receive the derived input width", f"{fi.module.relpath}:{c.lineno}")
     res.floor(R, 3)
 
@@ -587,8 +602,26 @@ def check_chain(prog: Program, res: Result) -> None:
             if isinstance(ic, ast.Name):
                 # a named input width, computed in the loop body before the block is built
                 nd = [s_ for s_ in lp.body if isinstance(s_, ast.Assign) and norm(s_.targets[0]) == ic.id]
+                if len(nd) == 1 and nd[0].lineno > ic_st.lineno:
+                    # a running variable: set to the input width before the first loop, handed this block's width AFTER the
+                    # block is built (V = F), read by the next block
+                    V = ic.id
+                    fdefs = [s_ for s_ in lp.body if isinstance(s_, ast.Assign) and norm(s_.targets[0]) == F]
+                    outer = [s_ for s_ in astq.assignments_to(enc.node, V) if not astq.enclosing_loops(s_) and s_.lineno < lp.lineno]
+                    n_prev += 1
+                    ok = norm(nd[0].value) == F and len(fdefs) == 1 and fdefs[0].lineno < ic_st.lineno and bool(outer)
+                    res.ob(R, ok, enc.qualname, f"block k takes the width of block k-1 as in_channels: running `{V}`",
+                           f"`in_channels={V}`: `{V}` is not handed this block's width `{F}` after the block is built (and initialised before the loops): for k > 0 the "
+                           "convolution expects channels the previous block does not deliver", f"{enc.module.relpath}:{c.lineno}")
+                    continue
                 if len(nd) == 1:
                     ic, ic_st = nd[0].value, nd[0]
+                    if isinstance(ic, ast.Name) and ic.id == F:
+                        n_prev += 1
+                        res.ob(R, False, enc.qualname, "block k takes the width of block k-1 as in_channels",
+                               f"`in_channels={norm(kw['in_channels'])}` is set to `{F}`, this block's OWN width, before the block is built: for k > 0 the convolution expects "
+                               "channels the previous block does not deliver", f"{enc.module.relpath}:{c.lineno}")
+                        continue
             if not isinstance(ic, ast.IfExp):
                 continue
             n_prev += 1
